@@ -136,6 +136,23 @@ STANDALONE = [
     {'new': 'MediaList', 'kw': {'mediaText': 'all'}},
     {'new': 'MediaQuery', 'kw': {'mediaText': 'screen and (min-width: 10px)'}},
     {'new': 'CSSStyleSheet', 'kw': {}},
+    # objects whose literal names differ from the normalised ones (simple escape, hex escape, upper case)
+    {'new': 'Property', 'kw': {'name': 'c\\olor', 'value': 'red'}},
+    {'new': 'Property', 'kw': {'name': '\\43 OLOR', 'value': 'RED', 'priority': '!IMPORTANT'}},
+    {'new': 'CSSStyleDeclaration', 'kw': {'cssText': 'c\\olor: red; T\\op: 1px; \\6c eft: 2px !IMPORTANT; COLOR: blue'}},
+    {'new': 'CSSStyleRule', 'kw': {'selectorText': 'D\\iv > sp\\61 n, \\61 b', 'style': 'c\\olor: red; TOP: 0'}},
+    {'new': 'CSSVariablesDeclaration', 'kw': {'cssText': 'C\\olor: red; \\77 : 1px; W2: 2px'}},
+    {'new': 'Selector', 'kw': {'selectorText': 'D\\iv > sp\\61 n'}},
+    {'new': 'SelectorList', 'kw': {'selectorText': 'D\\iv, \\61 b > C'}},
+    {'new': 'MediaList', 'kw': {'mediaText': 'PR\\int, T\\56'}},
+    {'new': 'MediaQuery', 'kw': {'mediaText': 'ONLY SCR\\65 en AND (MIN-width: 1px)'}},
+    {'new': 'MediaQuery', 'kw': {'mediaText': 'PR\\int'}},
+    {'new': 'CSSMediaRule', 'kw': {'mediaText': 'PR\\int, T\\56'}},
+    {'new': 'CSSPageRule', 'kw': {'selectorText': 'N\\6d:FIRST', 'style': 'm\\argin: 0'}},
+    {'new': 'MarginRule', 'kw': {'margin': '@TOP-l\\65 ft', 'style': 'c\\olor: red'}},
+    {'new': 'CSSFontFaceRule', 'kw': {'style': 'FONT-f\\amily: y; s\\72 c: url(b.ttf)'}},
+    {'new': 'CSSVariablesRule', 'kw': {'variables': 'C\\olor: red; \\77 : 1px'}},
+    {'new': 'CSSUnknownRule', 'kw': {'cssText': '@F\\6fo B\\ar;'}},
 ]
 
 
